@@ -256,7 +256,16 @@ fn msp_event<P: Kmer>(sink: &Sink, r: &mut Rng) {
     // in different reads and on both strands
     let alphas: [&[u8]; 3] = [&[0, 3], &[0, 1, 2, 3], &[0, 1, 2, 3]];
     let alpha = *r.pick(&alphas);
-    let core = r.dna_range(k, k + 25, alpha);
+    let mut core = r.dna_range(k, k + 25, alpha);
+    // periodic cores (after a short free head): several p-mers of one k-mer then agree on most of their bases, so any
+    // score that looks at part of the p-mer only ties them and the choice among them depends on what preceded the k-mer
+    if r.chance(1, 4) || (p > 8 && r.chance(1, 2)) {
+        let period = r.range(1, 3);
+        let head = r.range(0, 3);
+        for i in (head + period)..core.len() {
+            core[i] = core[i - period];
+        }
+    }
     let nreads = r.range(1, 4);
     let mut reads: Vec<Vec<u8>> = Vec::new();
     for _ in 0..nreads {
@@ -586,6 +595,8 @@ macro_rules! p_types {
             8 => $f::<Kmer40>($($args),*),
             9 => $f::<Kmer48>($($args),*),
             10 => $f::<Kmer64>($($args),*),
+            // a p-mer type whose 4^p values no longer fit 16 bits (msp only: the permutation table has 2^20 entries)
+            11 => $f::<Kmer10>($($args),*),
             _ => $f::<Kmer8>($($args),*),
         }
     }};
@@ -606,7 +617,7 @@ pub fn record(sink: &Sink, args: &Args) {
     }
     if has("msp") {
         for _ in 0..n {
-            let sel = r.below(5);
+            let sel = if r.chance(1, 8) { 11 } else { r.below(5) };
             p_types!(sel, msp_event(sink, &mut r));
         }
     }
